@@ -23,8 +23,22 @@ Definition chain := N.
 Definition root := N.
 Definition reqid := N.
 
+(* The on-ramp address is the one byte string whose LENGTH the code looks at (typconv.KeepNRightBytes(.., 20)), so it
+   is not an abstract id but the byte string itself: its length and its non-zero bytes as (index counted from the
+   END of the string, byte) in ascending index order — a canonical form, so that equality of the terms is bytes.Equal
+   (nil and the empty slice are both (0, [])). *)
+Definition addr := (N * list (N * N))%type.
+Definition addr_eqb (a b : addr) : bool :=                                                     (* bytes.Equal *)
+  N.eqb (fst a) (fst b) && list_eqb (pair_eqb N.eqb N.eqb) (snd a) (snd b).
+(* typconv.KeepNRightBytes(b, n): b itself if it has at most n bytes, else its last n bytes *)
+Definition keep_right (n : N) (a : addr) : addr :=
+  if N.leb (fst a) n then a else (n, filter (fun p => N.ltb (fst p) n) (snd a)).
+
 (* ---------- configuration ---------- *)
-Record lane_req := mkLaneReq { lr_chain : chain; lr_onramp : N; lr_min : N; lr_max : N }.
+(* lr_onramp: updateReq.LaneSource.OnrampAddress as the plugin passes it (abi-encoded, 32 bytes for an EVM source) *)
+Record lane_req := mkLaneReq { lr_chain : chain; lr_onramp : addr; lr_min : N; lr_max : N }.
+(* what an observation has to carry: the last 20 bytes of the requested address (all of it if it is shorter) *)
+Definition exp_onramp (q : lane_req) : addr := keep_right 20 (lr_onramp q).
 Record home_node := mkHomeNode { hn_id : node; hn_chains : list chain; hn_key : N }.
 Record signer := mkSigner { sg_node : node; sg_addr : N }.
 
@@ -35,7 +49,7 @@ Record config := mkConfig {
   c_dest_off : N;                  (* destChain.OfframpAddress *)
   c_dest_known : bool;             (* chainsel.ChainBySelector(dest) exists *)
   c_digest : N;                    (* rmnRemoteCfg.ConfigDigest *)
-  c_reqs : list lane_req;          (* updateRequests, in slice order; onramp = its 20 right bytes *)
+  c_reqs : list lane_req;          (* updateRequests, in slice order *)
   c_signers : list signer;         (* rmnRemoteCfg.Signers *)
   c_remoteF : Z;                   (* int(rmnRemoteCfg.F) *)
   c_dueA : bool;                   (* observationsInitialRequestTimerDuration already elapsed at the first select *)
@@ -60,7 +74,7 @@ Definition unfixed := mkFixes false false.
 (* ---------- wire messages ---------- *)
 Inductive rootv := RNil | RShort | R32 (r : root) | RLong (r : root).   (* RLong r: first 32 bytes are r *)
 Record lane_update := mkLU {
-  lu_src : option (chain * N);     (* LaneSource: selector, onramp *)
+  lu_src : option (chain * addr);  (* LaneSource: selector, onramp address bytes *)
   lu_itv : option (N * N);         (* ClosedInterval: min, max *)
   lu_root : rootv }.
 Record observation := mkObs {
@@ -251,7 +265,7 @@ Section Validate.
                 | Some (mn, mx) =>
                     if negb (N.eqb (lr_min (u_req u)) mn) then Err
                     else if negb (N.eqb (lr_max (u_req u)) mx) then Err
-                    else if negb (N.eqb (lr_onramp (u_req u)) onr) then Err
+                    else if negb (addr_eqb (exp_onramp (u_req u)) onr) then Err   (* bytes.Equal(KeepNRightBytes(req, 20), obs) *)
                     else
                     match lu_root lu with
                     | RNil => Err
